@@ -238,6 +238,13 @@ func runC18(c *Ctx) {
 			c.obI("R18.4", r, "RootCAs-set-when-"+o.name, !miss, "every success path on which opts."+o.name+" is present stores tls.Config.RootCAs (never falls back to the system pool)", "a success path with the option present leaves RootCAs unset")
 		}
 	}
+	// a CA file given without an in-memory CA certificate is always read into the pool — whatever else is supplied (a
+	// LoadedCAPool beside it is the base the file is added to, not a replacement)
+	for _, r := range succ {
+		skip := anyFact(factEqString(optField("CA"), "", true), factNil(optField("LoadedCA"), false))
+		miss := pathExists(f, nil, r, skip, isCallInstrTo("(*crypto/x509.CertPool).AppendCertsFromPEM"))
+		c.obI("R18.4", r, "CA-file-always-added", !miss, "every success path with opts.CA set (and no opts.LoadedCA) appends the CA file's certificates to the pool: the file is never silently dropped in favour of a supplied pool", "a success path with a CA file given never reads it into the pool")
+	}
 	// the CA material is added to the pool that is stored
 	for _, ci := range callsIn(f, "(*crypto/x509.CertPool).AddCert") {
 		_, args := callArgs(ci.Common())
@@ -245,7 +252,7 @@ func runC18(c *Ctx) {
 	}
 	for _, ci := range callsIn(f, "(*crypto/x509.CertPool).AppendCertsFromPEM") {
 		_, args := callArgs(ci.Common())
-		ok, bad := allOrigins(args[0], oCallWhere(0, "os.ReadFile", func(call *ssa.Call) bool { return optField("CA")(call.Call.Args[0]) }))
+		ok, bad := allOriginsAt(ci, args[0], oCallWhere(0, "os.ReadFile", func(call *ssa.Call) bool { return optField("CA")(call.Call.Args[0]) }))
 		c.obI("R18.4", ci, "AppendCertsFromPEM-arg", ok, "AppendCertsFromPEM receives the content of the file opts.CA", "origin "+describeOrigin(bad))
 	}
 	c.info("R18.4 informational: the boolean result of AppendCertsFromPEM is ignored; an unusable CA file yields an empty (fail-closed) pool")
